@@ -48,6 +48,19 @@ Theorem C11_msgstate_code :
   (forall b cls s, In (b, cls, s) message_state_rows -> cls = 0 /\ message_state_string b = Ok s).
 Proof. exact (conj message_state_rows_complete (conj message_state_code_total message_state_code)). Qed.
 
+(* CommandStatus.String / Error (what %v of a header, of a PDU and of an
+   unsuccess record prints): total in the model, and of the running code: for
+   every status in 0..0x4FF and the corners of the 32-bit range the dumped table
+   has no panic row and each text is the model's *)
+Theorem C11_command_status : forall named s, exists t, command_status_string named s = Ok t.
+Proof. exact command_status_string_ok. Qed.
+Theorem C11_command_status_code :
+  (firstn 1280 (map (fun r => fst (fst (fst r))) command_status_rows) = map N.of_nat (seq 0 1280) /\
+   existsb (N.eqb 4294967295) (map (fun r => fst (fst (fst r))) command_status_rows) = true) /\
+  (forall s c1 c2 t, In (s, c1, c2, t) command_status_rows ->
+     c1 = 0 /\ c2 = 0 /\ command_status_string command_status_named s = Ok t).
+Proof. exact (conj command_status_rows_complete command_status_code). Qed.
+
 (* Address.String, Parse, ReadSequence, ReadCommandStatus, Resp *)
 Theorem C11_address_string : forall a, exists s, address_string a = Ok s.
 Proof. exact address_string_ok. Qed.
